@@ -29,10 +29,12 @@ ROOT = os.path.dirname(os.path.dirname(os.path.abspath(__file__)))
 PROP_IDS = ['C%02d' % i for i in range(1, 21)]
 
 QUICK_SEEDS = {
-    'C01': 60000, 'C02': 60000, 'C03': 60000, 'C04': 60000, 'C05': 60000,
-    'C06': 40000, 'C07': 60000, 'C08': 30000, 'C09': 60000, 'C10': 50000,
-    'C11': 25000, 'C12': 50000, 'C13': 25000, 'C14': 40000,
-    'C15': 40000, 'C16': 40000, 'C17': 40000, 'C18': 40000, 'C19': 40000,
+    'C01': 150000, 'C02': 150000, 'C03': 150000, 'C04': 150000,
+    'C05': 150000, 'C06': 100000, 'C07': 150000, 'C08': 60000,
+    'C09': 150000, 'C10': 120000, 'C11': 50000, 'C12': 120000,
+    'C13': 50000, 'C14': 100000,
+    'C15': 100000, 'C16': 100000, 'C17': 100000, 'C18': 100000,
+    'C19': 100000,
 }
 CHUNK = 250
 
@@ -593,7 +595,7 @@ def main(argv=None):
     parser.add_argument('--jobs', type=int,
                         default=int(os.environ.get('VERIF_JOBS', '16')))
     parser.add_argument('--budget', type=float,
-                        default=float(os.environ.get('VERIF_BUDGET', '600')))
+                        default=float(os.environ.get('VERIF_BUDGET', '480')))
     parser.add_argument('--seed', type=int,
                         default=int(os.environ.get('VERIF_SEED', '0') or 0))
     parser.add_argument('--replay')
